@@ -612,6 +612,21 @@ func (s *Sim) DoCut(o CutOpts) (*RetransmitReport, error) {
 	for x := 0; x < 2; x++ {
 		y := 1 - x
 		out, _, _, err := s.Sides[x].Chan.ProcessChanSyncMsg(ctxb, msgs[y])
+		if err != nil && IsConstraintErr(err) && s.Owes(x) {
+			// lnd signs a fresh commitment right after
+			// retransmitting a revocation when it owes one. The
+			// updates it has to cover can be unaffordable together
+			// (update_fee by the opener crossing adds by the peer):
+			// the same documented race DoSign ends a case on. It
+			// is not a resynchronisation failure.
+			s.Aborted = fmt.Sprintf("%s sign during resync: %v",
+				sideName(x), err)
+			s.tracef("%s resync: constraint %v -> abort",
+				sideName(x), err)
+			s.label("abort_constraint_race_on_resync")
+
+			return rep, nil
+		}
 		if err != nil {
 			return nil, violationf("%s ProcessChanSyncMsg failed "+
 				"between honest peers: %v", sideName(x), err)
